@@ -102,8 +102,8 @@ func flatten(root *Node, m map[string]any, tag string, out url.Values) (bool, st
 				}
 				for _, e := range l {
 					s, ok := scalarString(e)
-					if !ok {
-						return false, "list element not expressible"
+					if !ok || s == "" {
+						return false, "nil / empty-string list elements are not expressible in a flat source"
 					}
 					out[key] = append(out[key], s)
 				}
@@ -111,6 +111,9 @@ func flatten(root *Node, m map[string]any, tag string, out url.Values) (bool, st
 				s, ok := scalarString(v)
 				if !ok {
 					return false, "list value not expressible"
+				}
+				if s == "" {
+					continue // an empty scalar for a list field is absent; a flat source says so by omitting the key
 				}
 				out[key] = append(out[key], s)
 			}
